@@ -1547,6 +1547,7 @@ func GenC08(rng *rand.Rand, thorough bool, emit func(*Sx)) {
 			}
 		}
 	}
+	genC08ServerClose(rng, thorough, emit) // Server.Close from a callback with commands buffered behind (closeat.go)
 }
 
 var c03Alphabet = []string{
